@@ -52,6 +52,10 @@ func (p *pool) Acquire(ctx context.Context) (v wire) {
 		go func() {
 			<-poolCtx.Done()
 			if context.Cause(poolCtx) != errAcquireComplete { // no need to broadcast if the poolCtx is cancelled explicitly.
+				// a waiter that has checked ctx.Err() but not yet entered cond.Wait holds the lock:
+				// take the lock first so that the broadcast can't fall into that window and get lost.
+				p.cond.L.Lock()
+				p.cond.L.Unlock()
 				p.cond.Broadcast()
 			}
 		}()
